@@ -128,6 +128,9 @@ class Gen:
                 s.pop("dom")
                 if s.get("dk") != "factory":
                     s.pop("n", None)
+        if s["key"] in ("S.X", "S.Y", "T.X") and "type" not in s and s.get("dk") != "factory" and rng.random() < 0.3:
+            # the same option declared as a member of an option namespace (S / T) instead of by its dotted key
+            s["via"] = rng.choice(["ns-auto", "ns-option"] + (["ns-plain"] if s.get("dk") == "const" and not s.get("dom") else []) + (["ns-annotation"] if "dk" not in s and not s.get("dom") else []))
         return s
 
     @staticmethod
@@ -229,6 +232,7 @@ class Gen:
             choices.append(("step", 0.8))
         if f["dataset_classes"]:
             choices.append(("dc", 0.7))
+            choices.append(("user", 0.5))
         total = sum(w for _, w in choices)
         r = rng.random() * total
         for name, w in choices:
@@ -252,6 +256,9 @@ class Gen:
                 "n": self.nid(),
                 "form": rng.choice(["apply", "rshift"]),
             }
+        if name == "user":
+            # a user-written Evaluatable subclass that wraps another expression and passes every operation on
+            return {"k": "user", "spec": self.expr(d), "n": self.nid(), "depth": rng.choice([1, 1, 2])}
         if name == "dc":
             # a dataset class (its instance, unpacked member by member): members may be privately named, and the first
             # `base` of them inherited from a base class that may be a dataset class itself
